@@ -1,6 +1,7 @@
 import UPVerif.Core.Sexp
 import UPVerif.Core.Oversub
 import UPVerif.Core.IFPlanner
+import UPVerif.Core.IFChanging
 /-!
 Line-protocol handler for C31 (grammar: see harness/props/C31.py).
 
@@ -9,7 +10,11 @@ Line-protocol handler for C31 (grammar: see harness/props/C31.py).
   (toversub (weights WEIGHT*) (same-interval T|F) (reach MASK*) (script (MASK STATUS)*))
       -> (STATUS MASK|_ (calls MASK*))
   (ifp PROBLEM (funs …) (script …) (trace (step STATUS VALID (KEY VALUE)*)*))
-      -> ((done STATUS valid|_) (steps STEP*)) | ((raised UPException|AssertionError) (steps STEP*)) | out-of-trace
+      -> ((done STATUS valid|_) (steps STEP*) (changing NAME*)) | ((raised UPException|AssertionError) (steps STEP*) (changing NAME*))
+         | out-of-trace
+  (ifchg PROBLEM)
+      -> (changing NAME*)      the model of `InterpretedFunctionsRemover._find_changing_fluents` (Core/IFChanging.lean) on the
+                               problem itself: names of the fluents that get an `_is_unknown` tracking fluent, sorted
 
 The abstract underlying planner of the models is instantiated from the case: for `oversub` it answers a
 subset query from the table of reachable exact subsets unless the script names the subset; for `ifp` the
@@ -114,10 +119,22 @@ def parseStep : Sexp → Option Step
     else some ⟨s, valid, vals, .list (.atom "step" :: .atom st :: .atom v :: kvs)⟩
   | _ => none
 
-def handleIfp (trace : List Sexp) : Sexp :=
-  match trace.mapM parseStep with
-  | none => .atom "bad-case"
-  | some steps =>
+/-- `(changing NAME*)`: `findChanging` on the parsed problem, names sorted (the Python side sorts the set) -/
+def changingOf (problem : Sexp) : Option Sexp :=
+  match parseProblem problem with
+  | none => none
+  | some P =>
+    match IFChanging.findChanging P with
+    | none => some (.atom "out-of-fuel")      -- never: Props/C31Closure.C31_changing_terminates
+    | some S =>
+      let names := (S.map (·.name)).mergeSort (fun a b => decide (a ≤ b))
+      some (Sexp.tag "changing" (names.map Sexp.atom))
+
+def handleIfp (problem : Sexp) (trace : List Sexp) : Sexp :=
+  match trace.mapM parseStep, changingOf problem with
+  | none, _ => .atom "bad-case"
+  | _, none => .atom "bad-case"
+  | some steps, some chg =>
     let solveAt : Nat → List (String × String) → Answer Nat := fun i _ =>
       match steps[i]? with
       | some s => ⟨s.status, if s.status.isPositive then some i else none⟩
@@ -129,9 +146,9 @@ def handleIfp (trace : List Sexp) : Sexp :=
     let (out, iters) := IFPlanner.solve solveAt validate steps.length
     let echo := Sexp.tag "steps" ((steps.take iters).map (·.raw))
     match out with
-    | .done st p => .list [.list [.atom "done", .atom st.name, .atom (if p.isSome then "valid" else "_")], echo]
-    | .noProgress => .list [.list [.atom "raised", .atom "UPException"], echo]
-    | .noPlan => .list [.list [.atom "raised", .atom "AssertionError"], echo]
+    | .done st p => .list [.list [.atom "done", .atom st.name, .atom (if p.isSome then "valid" else "_")], echo, chg]
+    | .noProgress => .list [.list [.atom "raised", .atom "UPException"], echo, chg]
+    | .noPlan => .list [.list [.atom "raised", .atom "AssertionError"], echo, chg]
     | .outOfFuel => .atom "out-of-trace"
 
 def section? (head : String) (rest : List Sexp) : Option (List Sexp) :=
@@ -148,10 +165,11 @@ def handle : Sexp → Sexp
     match section? "weights" rest, section? "reach" rest, section? "script" rest with
     | some ws, some reach, some script => handleTOversub ws reach script
     | _, _, _ => .atom "bad-case"
-  | .list (.atom "ifp" :: _ :: rest) =>
+  | .list (.atom "ifp" :: problem :: rest) =>
     match section? "trace" rest with
-    | some trace => handleIfp trace
+    | some trace => handleIfp problem trace
     | none => .atom "bad-case"
+  | .list [.atom "ifchg", problem] => (changingOf problem).getD (.atom "bad-case")
   | _ => .atom "bad-case"
 
 end UPVerif.Drv.C31
